@@ -69,6 +69,19 @@ def jobs_for(tier, rnd):
                         if G.well_formed(c, G.RULES_NULLABLE):
                             jobs.append((gid, G.describe(c, 'text'), TX, {'stratum': 'always-succeeding-choice'}))
                             gid += 1
+    # stratum: an expression that can fail after consuming, inside a construct that only FORWARDS what its operand says about
+    # partial success (lookahead, one-or-more, a choice with a failing tail, the longest of), inside a construct that
+    # backs up on that say-so (choice, Skip, Longest, repetition)
+    parts = [('seq', ('lit', 'a'), ('lit', 'b')), ('rep', ('lit', 'a'), 2, 2), ('right', ('lit', 'a'), ('rx', '[bc]')),
+             ('sep', ('lit', 'a'), ('lit', 'c'), (True, True, False, True)), ('seq', ('ref', 'X'), ('lit', 'c'))]
+    for P in parts:
+        for W in (('expect', P), ('rep', P, 1, None), ('alt', P, ('fail',)), ('expect', ('expect', P)), ('longest', P, ('fail',)), ('alt', ('expect', P), ('fail',))):
+            for K in G.CONTS:
+                for c in (('alt', W, K), ('seq', ('skip', W), K), ('longest', W, K), ('seq', ('rep', W, None, 2), K),
+                          ('seq', ('rep', ('seq', W, ('lit', 'c')), None, None), K), ('alt', ('seq', W, ('lit', 'c')), K)):
+                    if G.well_formed(c, G.RULES_NULLABLE):
+                        jobs.append((gid, G.describe(c, 'text'), TX, {'stratum': 'forwarded-flags'}))
+                        gid += 1
     # stratum: regular expressions that match the empty string on their own but can FAIL in context (lookahead, anchors)
     zw = [('rx', '(?!b)'), ('rx', '$'), ('rx', '(?=a)[ab]*'), ('rx', '(?!a)b?'), ('rx', 'a*$')]
     for z in zw:
